@@ -449,6 +449,15 @@ fn clerk_battery() -> String {
     expect("A01_B1234_overlap", &[with_indexes(&a, &[0, 1]), with_indexes(&b, &[1, 2, 3, 4])], &params, true);
     expect("A0_0_B1234", &[with_indexes(&a, &[0, 0]), with_indexes(&b, &[1, 2, 3, 4])], &params, true);
     expect("B11_A01234", &[with_indexes(&b, &[1, 1]), a.clone()], &params, true);
+    // junk next to a quorum: a signature naming a signer slot that is not registered, and a signature of another message
+    let with_slot = |s: &SingleSignature, slot: u64| { let mut c = s.clone(); c.signer_index = slot; c };
+    let other_msg = signers[1].create_single_signature(b"another message").unwrap();
+    expect("A_then_unregistered_slot", &[a.clone(), with_slot(&b, 999)], &params, true);
+    expect("unregistered_slot_then_A", &[with_slot(&b, 999), a.clone()], &params, true);
+    expect("A_then_other_message", &[a.clone(), other_msg.clone()], &params, true);
+    expect("other_message_then_A", &[other_msg.clone(), a.clone()], &params, true);
+    expect("A_twice_B_twice", &[a.clone(), b.clone(), a.clone(), b.clone()], &params, true);
+    expect("A_A_A_with_two_parties", &[a.clone(), a.clone(), a.clone()], &params, true);
     let _ = clerk;
     out.join(" ")
 }
